@@ -140,7 +140,7 @@ def run(tier):
     part.assumptions += [
         'jsonstr: strings contain no NUL byte (they cross a c_str() interface); locale "C" for boost::trim_copy',
         'jsonstr: token walk - the payload of Data (atoms, compound/array containers) is dropped; kept: every index, every stack operation, every read of the token array, the token-budget loop',
-        'jsonstr: token walk - jsmn_parse is replaced by its contract tokens_ok: extents inside the input, order by start, laminar nesting of extents and the zero sentinel are PROVED in layer (a) for inputs of any length (TOKWF, LAMINAR, TOKEQ_OLD); that token 0 is the opening container and that size > 0 exactly for containers with children is checked BOUNDED against the real jsmn.c (h_jsmn_structure)',
+        'jsonstr: token walk - jsmn_parse is replaced by its contract tokens_ok: extents inside the input, order by start, laminar nesting of extents and the zero sentinel are PROVED in layer (a) for inputs of any length (TOKWF, LAMINAR, FIRST_OK, TOKEQ_OLD); only that size > 0 exactly for containers with children is checked BOUNDED against the real jsmn.c (h_jsmn_structure)',
         'jsonstr: NOT covered - Data::toJSON and the building of Data trees (std::map/std::list recursion), numbers / INTERPRETED atoms, Event <-> Data',
     ]
     try:
